@@ -422,13 +422,13 @@ func (w *world) malformed(t *rapid.T, cl *client) (exported.Header, string) {
 			bscsim.Seal(h, s.outsider, s.chainID)
 		case "wrong-parent":
 			h.ParentHash = rhash(t, "bsc_bad_parent")
-			bscsim.Seal(h, s.keys[h.Number%uint64(len(s.keys))], s.chainID)
+			bscsim.Seal(h, s.sealer(h.Number), s.chainID)
 		case "number-skips":
 			h.Number++
 			s.fill(t, h)
 		case "wrong-difficulty":
 			h.Difficulty = new(big.Int).Set(bscsim.DiffNoTurn)
-			bscsim.Seal(h, s.keys[h.Number%uint64(len(s.keys))], s.chainID)
+			bscsim.Seal(h, s.sealer(h.Number), s.chainID)
 		case "short-extra":
 			h.Extra = h.Extra[:40]
 		case "seal-garbled":
@@ -542,7 +542,7 @@ func (w *world) expectedMeta(in *inst, bt time.Time) []metaKV {
 	case BSC:
 		g := in.bsc.genesis
 		vs := &bsctypes.ValidatorSet{}
-		for _, a := range in.bsc.vals {
+		for _, a := range in.bsc.nextVals {
 			vs.Validators = append(vs.Validators, a.Bytes())
 		}
 		bz, err := proto.Marshal(vs)
@@ -694,7 +694,12 @@ func (w *world) verifyProof(cl *client) error {
 func delayUpdates(in *inst) int {
 	switch in.Typ {
 	case BSC:
-		return len(in.bsc.vals)/2 + 1
+		// confirmations are counted with the list in force, which may have become the announced one meanwhile
+		n := len(in.bsc.vals)
+		if len(in.bsc.nextVals) > n {
+			n = len(in.bsc.nextVals)
+		}
+		return n/2 + 1
 	case ETH:
 		return int(in.eth.delay)
 	}
